@@ -1,9 +1,9 @@
 From Coq Require Import Extraction ExtrOcamlBasic.
-From GmVerif Require Import Base.Bytes Cipher.SM4 Cipher.SM4Tab Cipher.Modes Cipher.SM4Modes.
+From GmVerif Require Import Base.Bytes Cipher.SM4 Cipher.SM4Tab Cipher.Modes Cipher.SM4Modes Cipher.AES Cipher.SM4Unrolled.
 Extraction Language OCaml.
 Extraction "../ocaml/gen/ModelC04.ml"
   Z.of_N N.of_nat
-  implE implD specE specD sm4_table_mismatches
+  implE implD specE specD sm4_table_mismatches sm4_encrypt_unrolled sm4_set_encrypt_key sm4_set_decrypt_key
   BLOCK_CIPHER_sm4 block_cipher_set_encrypt_key block_cipher_set_decrypt_key
   block_cipher_encrypt block_cipher_decrypt
   query16 cfb_query query_finish buf_update
@@ -18,4 +18,6 @@ Extraction "../ocaml/gen/ModelC04.ml"
   cfb_encrypt_finish cfb_decrypt_finish cfb_enc_spec cfb_dec_spec
   xts_mul2 xts_mul2_spec xts_encrypt xts_decrypt xts_init xts_encrypt_update xts_decrypt_update
   xts_finish xts_enc_spec xts_dec_spec xts_units_spec xts_encrypt_raw xts_decrypt_raw segs tweak_incr
-  cbc_mac_init cbc_mac_update cbc_mac_finish cbc_mac_spec.
+  cbc_mac_init cbc_mac_update cbc_mac_finish cbc_mac_spec
+  aes_cbc_encrypt aes_cbc_decrypt aes_cbc_padding_encrypt aes_cbc_padding_decrypt aes_ctr_encrypt
+  aes_set_encrypt_key aes_set_decrypt_key aes_encrypt_rk aes_decrypt_rk.
